@@ -34,7 +34,7 @@ pub struct Arena {
 
 pub struct Sink {
     arena: RefCell<Arena>,
-    names: RefCell<Vec<&'static QualName>>, // leaked names for elem_name lifetime
+    names: RefCell<Vec<Box<QualName>>>, // copies of element names handed out by elem_name
 }
 
 impl Sink {
@@ -91,10 +91,15 @@ impl TreeSink for Sink {
     fn elem_name<'a>(&'a self, target: &'a usize) -> ExpandedName<'a> {
         let a = self.arena.borrow();
         if let Kind::Elem { ref name, .. } = a.nodes[*target].kind {
-            // Leak a clone so that the borrow can outlive the RefCell guard (oracle only).
-            let leaked: &'static QualName = Box::leak(Box::new(name.clone()));
-            self.names.borrow_mut().push(leaked);
-            leaked.expanded()
+            // Keep a boxed copy alive for as long as the sink lives (the arena's Vec may move
+            // its nodes), and hand out a reference to the box's stable address.
+            let boxed: Box<QualName> = Box::new(name.clone());
+            let ptr: *const QualName = &*boxed;
+            self.names.borrow_mut().push(boxed);
+            // SAFETY: the box is owned by `self.names`, which is only dropped with the sink, and is
+            // never mutated; the returned reference cannot outlive `&'a self`.
+            let r: &'a QualName = unsafe { &*ptr };
+            r.expanded()
         } else {
             panic!("not an element")
         }
